@@ -154,7 +154,7 @@ def _v5_block(ctx, little, addr, fmt64, lists, with_table, nm='blk'):
     return pre + hdr + table + body, dict(offs=offs, table_off=table_off, unit_length=n, count=cnt, size=len(pre) + n, after_length=len(pre))
 
 
-def _mk_cu(ctx, little, addr, ver, fmt64, attrs, addr_base=None, extra_secs=None, dies=None):
+def _mk_cu(ctx, little, addr, ver, fmt64, attrs, addr_base=None, extra_secs=None, dies=None, abbrev_off=0):
     """a unit whose top DIE carries `attrs` [(attr, form, bytes)] (+ DW_AT_addr_base) and optional child DIEs [(attr, form, bytes)]"""
     offsz = 8 if fmt64 else 4
     top = list(attrs)
@@ -167,7 +167,7 @@ def _mk_cu(ctx, little, addr, ver, fmt64, attrs, addr_base=None, extra_secs=None
         body += [2 + i] + sum([b for _, _, b in d], [])
     if dies:
         body += [0]
-    h, hsz = unit_header(ver, fmt64, little, addr, 0, 'compile', body_len=len(body))
+    h, hsz = unit_header(ver, fmt64, little, addr, abbrev_off, 'compile', body_len=len(body))
     return h + body, abbrev_table(decls)
 
 
@@ -371,8 +371,22 @@ def h_enum(ctx):
         dies = [[(AT['location'], form, enc.enc_int(offs[rv] + len(VIEWS), offsz, little)), (AT['GNU_locviews'], form, enc.enc_int(offs[rv], offsz, little)),
                  (AT['frame_base'], form, enc.enc_int(offs[r2], offsz, little))]] + dies
     cu, ab = _mk_cu(ctx, little, addr, ver, False, [], addr_base=abase, dies=dies)
-    di, streams = mk_dwarfinfo(ctx, little, addr, debug_info=cu, debug_abbrev=ab, **dict(extra, **{secname: sec}))
-    lists = di.location_lists() if loc else di.range_lists()
+    if cfg.get('mixed'):
+        # units of the other generation linked into the same file, with their own list section: their list attributes are
+        # offsets into THAT section and must not be taken for lists of the section being enumerated
+        ver2 = 4 if ver >= 5 else 5
+        form2 = 0x17
+        other = [[(use_attr, form2, enc.enc_int(o, offsz, little))] for o in (1, 7)]
+        cu2, ab2 = _mk_cu(ctx, little, addr, ver2, False, [], dies=other, abbrev_off=len(ab))
+        other_name = {('debug_loclists'): 'debug_loc', 'debug_rnglists': 'debug_ranges', 'debug_loc': 'debug_loclists', 'debug_ranges': 'debug_rnglists'}[secname]
+        secs = dict(extra, **{secname: sec, other_name: [0] * 40})
+        di, streams = mk_dwarfinfo(ctx, little, addr, debug_info=cu + cu2, debug_abbrev=ab + ab2, **secs)
+        mod = ctx.lib('dwarf.locationlists' if loc else 'dwarf.ranges')
+        sec_desc = getattr(di, secname + '_sec')
+        lists = (mod.LocationLists if loc else mod.RangeLists)(sec_desc.stream, di.structs, 5 if ver >= 5 else 4, di)
+    else:
+        di, streams = mk_dwarfinfo(ctx, little, addr, debug_info=cu, debug_abbrev=ab, **dict(extra, **{secname: sec}))
+        lists = di.location_lists() if loc else di.range_lists()
     got = ctx.drain(lists.iter_location_lists() if loc else lists.iter_range_lists())
     ctx.outcome('ok')
     want_idx = sorted(set(refs) | (set(views) if views is not None else set()))
@@ -509,6 +523,7 @@ HARNESSES = [
       desc='unit blocks of the v5 list sections (DWARF32/64, offset_count 0-2, several blocks): iter_CUs headers and offset tables; iter_CU_range_lists_ex yields exactly the lists between the offset table and the block end'),
     H('h7_5_enum', h_enum, lambda tier: [dict(little=l, addr=a, loc=lo, ver=v, refs=r) for l, a in ENVS[:2] for lo in (True, False) for v in (3, 4, 5)
                                          for r in ([0], [2, 0, 2], [1, 2])] +
+                                        [dict(little=l, addr=a, loc=lo, ver=v, refs=[2, 0], mixed=True) for l, a in ENVS[:2] for lo in (True, False) for v in (4, 5)] +
                                         [dict(little=l, addr=a, loc=True, ver=v, refs=r, views=vw) for l, a in ENVS[:2] for v in (4, 5) for r, vw in (([], (0, 2)), ([1], (2, 0)), ([2], (1, 2)))], expect=('ok',),
       desc='iter_location_lists / iter_range_lists: the visited lists are exactly those referenced by the entries of the unit (shared references once), in ascending offset order, skipping gaps'),
     H('h7_6_classify', h_classify, lambda tier: [dict(ver=v) for v in (2, 3, 4, 5)], expect=('ok',),
